@@ -136,8 +136,8 @@ def fill(claim, na):
         "C09",
         "proof",
         "translator (syntax tree of the threshold guard, _xi, _eta, labda, convolution point -> Lean KExpr; shape tables for every heavy NC closure, the hadronic decorator, conv.convolution's exits and the mass lookup; regenerated each run) + Lean 4 theorems over the reals and exact rationals + correspondence with the real methods at exact boundary points + real runs on both sides of and exactly on the thresholds",
-        "Proved for all Q2>0, m2>=0, 0<z: the generated guard is Q2(1-z)/z <= 4m2 (boundary included), equivalent to z >= z_max = Q2/(Q2+4m2), monotone in z (hadronic threshold implies the whole partonic range), and the exact complement of the domain eta>0 of the massive coefficient functions; every regular part of all 28 heavy NC (class, order) sites starts with the guard and none has a singular part (kernel-decided on the table read from the syntax tree); the decorator wraps all four orders and empties them, hence every operator entry of the channel is 0 at or below the hadronic threshold, including the local term of the NNLO 'missing' channel; CC: the convolution point is x(1+m2/Q2), inherited by all six classes, used as argument and prefactor, and conv.convolution returns 0 beyond 1-1e-10; the mass looked up is the one of the produced quark. The exact-rational evaluator used by the correspondence is proved sound w.r.t. the real semantics. Real code: guard/eta/labda/point vs model on exactly representable boundary points, one ulp either side, and random points; conv.convolution vs the model on the real eko basis; every regular part exactly 0.0 beyond z_max and LeProHQ never called with eta<=0; operator rows of gluon/lighter quarks exactly zero at and below threshold; NNLO light structure function independent of the heavy mass on threshold; CC LO rows located at chi with the produced quark's mass and zero for chi>=1.",
-        TB + "LeProHQ is external (only its domain is checked). Double rounding within one ulp of a threshold is the code's, not the model's: compared only where double arithmetic is exact. Rows of the produced quark itself (intrinsic channel) are outside the property.",
+        "Proved for all Q2>0, m2>=0, 0<z: the generated guard is Q2(1-z)/z <= 4m2 (boundary included), equivalent to z >= z_max = Q2/(Q2+4m2), monotone in z (hadronic threshold implies the whole partonic range), and the exact complement of the domain eta>0 of the massive coefficient functions; every regular part of all 28 heavy NC (class, order) sites starts with the guard and none has a singular part (kernel-decided on the table read from the syntax tree); the decorator wraps all four orders and empties them, hence every operator entry of the channel is 0 at or below the hadronic threshold, including the local term of the NNLO 'missing' channel; CC: the convolution point is x(1+m2/Q2), inherited by all six classes, used as argument and prefactor, and conv.convolution returns 0 beyond 1-1e-10; the mass looked up is the one of the produced quark. The exact-rational evaluator used by the correspondence is proved sound w.r.t. the real semantics. Real code: guard/eta/labda/point vs model on exactly representable boundary points, one ulp either side, and random points; conv.convolution vs the model on the real eko basis; every regular part exactly 0.0 beyond z_max and LeProHQ never called with eta<=0 (exact thresholds, and generic masses at the doubles around the threshold, which exposed defect F26; its repair adds `or eta(z) <= 0` to the guard, proved redundant over exact numbers: eta_clause_is_redundant); operator rows of gluon/lighter quarks exactly zero at and below threshold; NNLO light structure function independent of the heavy mass on threshold; CC LO rows located at chi with the produced quark's mass and zero for chi>=1.",
+        TB + "LeProHQ is external (only its domain is checked). Double rounding within one ulp of a threshold is the code's, not the model's: the guard is compared with the model only where double arithmetic is exact; within one ulp the real code is required to return finite numbers and not to call the massive library at eta<=0. Rows of the produced quark itself (intrinsic channel) are outside the property.",
         "DESIGN.md 6/C09",
     )
     claim(
@@ -152,7 +152,7 @@ def fill(claim, na):
         "C01",
         "proof",
         "hand-written Lean 4 model of compute_local / convolve_vector / conv.convolution's assembly + theorems over the reals (Mathlib interval integrals) using the interpolation-basis model of C19 + correspondence with the real compute_local (recorded convolve_vector vectors) + independent re-computation of every operator entry of real runs from the Combiner's kernels",
-        "Proved: every entry orders[(o,0,0,0)][pid][j] of the model is sum over kernels of weight(pid) x point x convolution(rsl_o, point, p_j) with the channel's own convolution point as argument and prefactor, nothing for inactive orders / absent coefficients / empty RSLs, zero rows for partons without weight; over the reals, with conv(g) = int reg g(chi/z)/z + int sing (g(chi/z)/z - g(chi)) + g(chi) loc(chi): the contraction of the entries with node values is conv of the interpolant (linearity), and on every logarithmic grid reaching 1, every degree, every coefficient function and convolution point in the grid, for PDFs in the span it equals chi x conv(f) - the factorised structure function; the is_below_x early exit is exact (conv(p_j)=0). Real code: compute_local with recorded convolve_vector outputs = model assembly (all schemes/processes/orders); convolve_vector = map of convolution; conv.convolution's exits and assembly on the real eko basis; every entry of real runs (18 configurations: ZM/FFNS/FFN0/FONLL, EM/NC/CC, light/total/heavy, polarised, x in first/last/last-two intervals, on nodes) re-computed by an independent quadrature (other variable, other breakpoints) from the real kernels; contraction with in-span PDFs vs direct quadrature with the analytic PDF.",
+        "Proved: every entry orders[(o,0,0,0)][pid][j] of the model is sum over kernels of weight(pid) x point x convolution(rsl_o, point, p_j) with the channel's own convolution point as argument and prefactor, nothing for inactive orders / absent coefficients / empty RSLs, zero rows for partons without weight; over the reals, with conv(g) = int reg g(chi/z)/z + int sing (g(chi/z)/z - g(chi)) + g(chi) loc(chi): the contraction of the entries with node values is conv of the interpolant (linearity), and on every logarithmic grid reaching 1, every degree, every coefficient function and convolution point in the grid, for PDFs in the span it equals chi x conv(f) - the factorised structure function; the is_below_x early exit is exact (conv(p_j)=0). Real code: compute_local with recorded convolve_vector outputs = model assembly (all schemes/processes/orders); convolve_vector = map of convolution; conv.convolution's exits and assembly on the real eko basis; every entry of real runs (18 configurations: ZM/FFNS/FFN0/FONLL, EM/NC/CC, light/total/heavy, polarised, x in first/last/last-two intervals, on nodes) re-computed by an independent quadrature (other variable, other breakpoints) from the real kernels; contraction with in-span PDFs vs direct quadrature with the analytic PDF; grids ending at and below 1; for photon exchange in the massless scheme up to a_s the assignment itself (coefficient function, nf, charges) against published closed forms with no yadism ingredient (entries_vs_published_coefficient_functions).",
         TB + "scipy quadrature accuracy is observed (2e-7), not proved; integrability of the basis integrands is a hypothesis of the linearity theorem; the entry is 0 by construction for a convolution point >= 1-1e-10; scale-variation orders are C05's, the local-part consistency C03's, the basis C19's.",
         "DESIGN.md 6/C01",
     )
